@@ -27,7 +27,7 @@ for p in props:
         'level_claimed': {
             'category': 'proof',
             'text': grab('LEVEL_TEXT', 'Coq theorems over the model regenerated from /repo on every run, plus float correspondence and a numeric search oracle'),
-            'design_ref': f'DESIGN.md section 5 ({pid})',
+            'design_ref': f'DESIGN.md section 11.{int(pid[1:])} ({pid}, as built; the plan is section 5)',
         },
         'level_note': grab('LEVEL_NOTE', 'trusted: Coq kernel, pysym translator, stdlib real-number axioms; theorems are over exact reals, the float gap is measured not proved'),
         'technique': grab('TECHNIQUE', 'machine-checked proof in Coq 8.16 over a model regenerated from source by symbolic tracing; correspondence via vm_compute'),
